@@ -348,10 +348,11 @@ class Cursor(HostObj):
     host_type = 'Reader'
 
     def __init__(s, data, fail_at=None):
-        s.data = list(data); s.pos = 0; s.fail_at = fail_at; s.reads = 0; s.max_req = 0; s.kinds_seen = set()
+        s.data = list(data); s.pos = 0; s.fail_at = fail_at; s.reads = 0; s.max_req = 0; s.kinds_seen = set(); s.methods = set()
 
     def call(s, ex, site, argv):
         me = site.method if site is not None else 'read_exact'
+        s.methods.add(me)
         if me == 'read_exact':
             buf = deref(ex, argv[1])
             n = len(buf)
@@ -367,6 +368,7 @@ class Cursor(HostObj):
             return ok(unit())
         if me == 'read':
             buf = deref(ex, argv[1]); n = min(len(buf), len(s.data) - s.pos)
+            s.reads += 1; s.max_req = max(s.max_req, len(buf))
             seg = s.data[s.pos:s.pos + n]; s.pos += n
             buf.vec.items[buf.lo:buf.lo + n] = seg
             return ok(n)
